@@ -116,7 +116,7 @@ def _td_only_for_str_dicts(t, vals, path="$"):
         if O.is_anon_td(alt):
             mine = [v for v in vals if type(v) is dict and O.conforms(v, alt)]
             for v in mine:
-                if len(v) == 0 or not all(isinstance(kk, str) for kk in v):
+                if len(v) == 0 or not all(issubclass(type(kk), str) for kk in v):
                     return f"{path}: TypedDict describes dict {show(v)}"
             if not mine:
                 return f"{path}: TypedDict without a str-keyed dict"
